@@ -3,6 +3,8 @@
 import json
 props=[json.loads(l)['id'] for l in open('/verif/properties.jsonl')]
 CLAIMS = {
+ "C02": ("proof", "execPredicate/execStep/filter-expression handlers equal the Sem definition: one evaluation per context node, position = index in the candidate list in axis order, last() = its length, [n] as IEEE position()=n, (E)[p] numbered in document order, path continued after a filter (dispatch obligations for PathExprFilter*)", "Sem layer (module sem, written from XPath 1.0); A-BSR; the lemma 'strictly monotone sequence is determined by its member set' is assumed (module seqcanon)"),
+ "C18": ("proof", "Exec starts from the given cursor with position 1, size 1 (obligations at the execRecover call), and P/R = union over P of R by the Sem equations for RelativeLocationPathWithStep and Step proved for the handlers", "execRecover trusted (defer/recover); user setting callbacks assumed to touch only the settings they are given; function-in-path P/f() not covered (FunctionCall handler not yet under contract)"),
  "C01": ("proof", "every axis selector (13 axes, every context-node kind) returns exactly the XPath 2.2 node set: obligations over an interval-labelled tree of unbounded size", "tree axioms (validated on a concrete document by tools/evalcheck.py), A-CUR; node tests/name tests and step composition are covered through the handler contracts where listed in the evidence"),
  "C03": ("proof", "unique/sort/cleanup and every selector: duplicate-free, strictly monotone results, same element set", "sort.Sort assumed to sort by the verified Less/Swap; tree axioms"),
  "C04": ("proof", "the twelve Result conversion methods, string-value of nodes, number() syntax recogniser and the conversion builtins equal the specification functions toStr/toNum/toBool", "strconv.FormatFloat/ParseFloat assumed correctly rounded on the inputs they are given"),
